@@ -45,9 +45,26 @@ Definition call (op : Z) (q : Qc) (P : plane) : list Z :=
 
 Definition pstep : parser (Z * Qc * plane) := op <- pZ ;; q <- pQ ;; P <- pplane ;; pret (op, q, P).
 
+(* op 4: lentil.rescale(img, scale, shape, mask, order, mode, unitary) called directly.
+   input: order (0 = (3,'nearest'), 1 = (0,'constant')), scale, img arr, shape (0 | 1 a | 2 a b),
+          mask (0 = None | 1 arr eps | 2 = explicit integer/bool mask), unitary flag *)
+Definition pshape : parser shapearg :=
+  t <- pZ ;; if t =? 0 then pret ShNone else if t =? 1 then (a <- pZ ;; pret (ShScalar a)) else (a <- pZ ;; b <- pZ ;; pret (ShPair a b)).
+Definition ppm : parser (option (qarr * Qc) * bool) :=
+  t <- pZ ;; if t =? 0 then pret (None, false)
+  else if t =? 1 then (a <- pqarr ;; e <- pQ ;; pret (Some (a, e), false))
+  else pret (None, true).
+Definition run_util (rest : list Z) : list Z :=
+  match pall (o <- pZ ;; q <- pQ ;; img <- pqarr ;; sh <- pshape ;; pm <- ppm ;; u <- pbool ;; pret (o, q, img, sh, pm, u)) rest with
+  | Some (o, q, img, sh, (pm, pmint), u) =>
+      eresult eoarr (rescale_gen (if o =? 0 then Cubic else Nearest0) img q sh pm pmint u)
+  | None => emalformed
+  end.
+
 Definition run (inp : list Z) : list Z :=
   match inp with
   | op :: rest =>
+    if op =? 4 then run_util rest else
     if op =? 3 then
       match pall (plist pstep) rest with
       | Some steps =>
